@@ -126,6 +126,11 @@ def build_cfg(case, scheme="plain", via="full", share=None):
             share["P"] = list(P)
     if via == "full":
         return m.CFG(set(V), set(T), V[0], P)
+    if via == "list2":
+        # productions given as a list in which every production occurs twice (equal, distinct objects): the
+        # signature takes any iterable, and the library's own passes hand such lists to the constructor
+        return m.CFG(start_symbol=V[0], productions=sorted(P, key=repr) +
+                     [m.Production(V[h], [sym(s) for s in body]) for h, body in prods])
     return m.CFG(start_symbol=V[0], productions=P)
 
 
